@@ -72,6 +72,9 @@ def obligations(tier):
         Ob('load_slices_end_to_end', 'ch', 'file with 3 data records of 1..2, 2..3, 1..2 frames; every slice (step 1..3), every non-empty subset of the two value channels, indirect X on/off, '
            'TIF on/off, with/without an earlier load, up/down log, frame spacing declared in X units or in FEET',
            e2e, harness='C06_logpass', func='load_slices', timeout=2400, parts=32, stubs=['SymFile', 'PyStruct'], classify=_classify_load, tiers=('thorough',)),
+        Ob('load_wide_channel_subsets', 'ch', 'file with 12 channels (direct X) or 11 (implied X), 2 data records of 2 frames; EVERY non-empty channel subset (12-bit mask), step 1..2: '
+           'values in ascending channel order and X of every loaded frame',
+           e2e, harness='C06_logpass', func='load_wide_subsets', timeout=280 if q else 1200, parts=32, stubs=['SymFile', 'PyStruct']),
         Ob('plan_events_vs_cursor', 'ch', '1..3 channels of 1..3 bytes, indirect X on/off, slice start 0..3 / stop <= 4 / step 1..3, every non-empty channel mask',
            ['LIS.core.Type01Plan.FrameSetPlan.__init__/genEvents/_retFrameEvents/_retMergedPostFramePre/chOffset'], harness='C06_logpass', func='plan_events',
            timeout=280 if q else 1200, parts=24),
